@@ -109,7 +109,13 @@ def run_case(case, rec):
         if mono and mode == 0:
             with np.errstate(all="ignore"):
                 r = F1**2/F2
-            qs = q*size
+            # upper bound of the particle's extent: the largest length times every dimensionless ratio above one
+            # (b2a_ratio, x_core, ...); the (q*size)^2 error bound of the low-q law needs the true largest extent
+            ext = size
+            for p_ in i.parameters.kernel_parameters:
+                if p_.type == "volume" and p_.units == "" and p_.length == 1 and abs(pars.get(p_.name, 1.0)) > 1.0:
+                    ext *= abs(pars[p_.name])
+            qs = q*ext
             low = qs < 3e-2
             if np.any(low) and np.all(F2[low] > 0):
                 rec.check("lowq_equality_mono", bool(np.all(np.abs(r[low] - 1.0) <= 10*qs[low]**2 + 1e-10)),
